@@ -32,6 +32,7 @@ def run(ctx):
     ctx.rule("C11.5", "no parser error is discarded outside the documented back-tracking helper")
     ctx.rule("C11.6", "tokeniser character classes vs writer escape classes (shared with C13.1)")
     ctx.rule("C11.7", "record forms: the type may be preceded by 0..3 fields and each form is tried for every line long enough for it; a leading field is a TTL exactly when it is all digits, otherwise a name")
+    ctx.rule("C11.8", "parentheses: `(` at the start of a token opens a continuation, `)` closes it, and a newline ends the entry in every unquoted state exactly when no parenthesis is open (tabulated from the tokeniser's MIR)")
     ctx.decline("that parsing yields exactly the denoted records for every rendering (value property)")
 
     zd = prog.fn(ZONE_DES)
@@ -261,7 +262,8 @@ def run(ctx):
         g = strpred.guarded(pdc, kinds["from_dotted_string"][0], is_s, lambda nf: nf == ("last", ".", True))
         ctx.check(g, "C11.3", "parse_domain:absolute-iff-trailing-dot", "absolute parsing only when the last character is '.'", "absolute parsing not tied to a trailing dot", pdm.loc(kinds["from_dotted_string"][0]))
     if "from_relative_dotted_string" in kinds:
-        g = strpred.guarded(pdc, kinds["from_relative_dotted_string"][0], is_s, lambda nf: nf == ("last", ".", False))
+        # (an empty text has no last character at all: that edge states the same thing)
+        g = strpred.guarded(pdc, kinds["from_relative_dotted_string"][0], is_s, lambda nf: nf in (("last", ".", False), ("empty", True)))
         ctx.check(g, "C11.3", "parse_domain:relative-iff-no-trailing-dot", "relative parsing only when the last character is not '.'", "a name with a trailing dot can be parsed as relative", pdm.loc(kinds["from_relative_dotted_string"][0]))
     eo = [b for b, v in derrs.items() if v == "ExpectedOrigin"]
     ok = len(eo) >= 2 and all(pdc.guarded(b, lambda fc: fc[0] == "is" and fc[1] == "None" and A.peel(fc[2]) == ("param", 1))[0] for b in eo)
@@ -352,6 +354,25 @@ def run(ctx):
 
     # ---------------------------------------------------------------- C11.6
     C13.escape_rules(ctx, "C11.6")
+
+    # ---------------------------------------------------------------- C11.8
+    from . import zonetext
+    tt, tfn, states = zonetext.tokeniser_table(prog)
+    tfl = zonetext.tokeniser_flags(prog)
+    ctx.check(tfl[("Initial", 40, False)] == {True} and all(o[0] == "special" for o in tt[("Initial", 40, False)]), "C11.8", "paren:open", "`(` outside parentheses opens a continuation",
+              "`(` leaves the continuation flag as %s" % sorted(map(str, tfl[("Initial", 40, False)])), tfn.loc())
+    ctx.check(tfl[("Initial", 41, True)] == {False} and all(o[0] == "special" for o in tt[("Initial", 41, True)]), "C11.8", "paren:close", "`)` inside parentheses closes the continuation",
+              "`)` leaves the continuation flag as %s" % sorted(map(str, tfl[("Initial", 41, True)])), tfn.loc())
+    unq = [st for st in states if st != "QuotedString"]
+    ends_out = [st for st in unq if tt[(st, 10, False)] != {("end-of-entry",)}]
+    ends_in = [st for st in unq if any(o[0] in ("end-of-entry", "error") for o in tt[(st, 10, True)]) or tfl[(st, 10, True)] != {None}]
+    ctx.check(not ends_out, "C11.8", "newline:ends-entry", "outside parentheses a newline ends the entry", "a newline outside parentheses does not end the entry in state(s) %s" % ends_out, tfn.loc())
+    ctx.check(not ends_in, "C11.8", "newline:continues-in-parens", "inside parentheses a newline is white space (the entry goes on, the parenthesis stays open)",
+              "a newline inside parentheses ends the entry / closes the parenthesis in state(s) %s" % ends_in, tfn.loc())
+    # nothing but the two parenthesis transitions touches the flag
+    others = sorted({(st, ch) for (st, ch, lc), v in tfl.items() if v != {None} and not (st == "Initial" and ((ch == 40 and not lc) or (ch == 41 and lc)))})
+    ctx.check(not others, "C11.8", "paren:flag-owners", "only `(` and `)` at the start of a token change the continuation flag",
+              "the continuation flag is also changed by %s" % [(st, chr(ch)) for st, ch in others[:6]], tfn.loc())
 
 
 def _reach_noloop(fn, s):
